@@ -139,7 +139,8 @@ def run(ctx):
     ctx.rules.append("whole-run relations, byte comparison of every generated file: two hash seeds; in-process histories (ordered "
                      "pairs/triples over a pool mixing C and C++ libraries, incl. the same description in both languages and two "
                      "generated libraries with the same class name but different options) vs fresh process; output directory "
-                     "pre-populated with different content under the same file names; different cwd + environment. "
+                     "pre-populated with different content under the same file names; different cwd + environment; the same absolute "
+                     "paths from two current directories without the test-suite option. "
                      "non-trivial = distinct (relation, input, history) compared")
     ctx.assume += ["Python dict insertion order (guaranteed >= 3.7) is trusted",
                    "the body of a run is opaque in the Coq model; which registries it reads before rebuilding them is evidenced "
@@ -298,6 +299,26 @@ def run(ctx):
         if files is None or files != refs[n]:
             fails.append({"relation": "different cwd and environment", "input": n,
                           "files": sorted(k for k in set(refs[n]) | set(files or {}) if (files or {}).get(k) != refs[n].get(k))[:6]})
+    # ---- R5 the same absolute paths from two different current directories, without the test-suite option
+    #         (debug_testsuite makes the writers use base names, which hides what they do with real paths)
+    deep = os.path.join(ctx.bdir, "cwd_a", "deeper", "still")
+    os.makedirs(deep, exist_ok=True)
+    for n in (base_pool[:4] + ["gen-many"] if quick else sorted(refs)):
+        if n not in descs:
+            continue
+        y, a = job_for(descs, n)
+        a2 = [x for i, x in enumerate(a) if not (x == "debug_testsuite=true" or (x == "--option" and i + 1 < len(a) and a[i + 1] == "debug_testsuite=true"))]
+        res = []
+        for cwd in (other, deep):
+            od = os.path.join(ctx.bdir, "runs", "abs_" + n)
+            shutil.rmtree(od, ignore_errors=True)
+            files, out = fresh_run(ctx, "abs_" + n, y, a2, cwd=cwd)
+            res.append(files)
+        ctx.count(1, ("abs-cwd", n))
+        ctx.hist("rel:abs-paths-two-cwds")
+        if res[0] is None or res[0] != res[1]:
+            fails.append({"relation": "same absolute input / output paths, two current directories", "input": n, "arguments": a2,
+                          "files": sorted(k for k in set(res[0] or {}) | set(res[1] or {}) if (res[0] or {}).get(k) != (res[1] or {}).get(k))[:6]})
     for f in fails:
         if (f.get("relation") == "in-process history vs fresh process" and f.get("files") and not f.get("status")
                 and all(os.path.basename(x) in ("helpers.c", "helpers.f") for x in f["files"]) and ctx.is_known(KF_HELPERS)):
